@@ -901,7 +901,7 @@ func (s *sess) preJoin() {
 func TestC24(t *testing.T) {
 	r := lib.Start(t, "C24")
 	defer r.Finish()
-	r.Rule("layer 1 (e2e): one case = one plugin message sent by a fake client through a live proxy whose fake backend is held at a chosen stage; sessions: first-join in configuration (protocols 764..776, hold inside Dial or before login success, 0-60 early messages, 0-40 messages racing the release, 0-5 later ones, play messages after the join) followed by a switch to a second backend with 1-23 configuration messages; cap cases (1023/1024/1025/1100 messages, bodies just below / exactly / 1 byte above 4 MiB, 5 MiB); pre-join play messages of < 1.20.2 clients; distinct = (scenario, protocol, hold stage, counts, release point). layer 2 (unit, hook-built handlers): one case = one history of enqueue/flush operations racing on the real session handlers")
+	r.Rule("layer 1 (e2e): one case = one plugin message sent by a fake client through a live proxy whose fake backend is held at a chosen stage; sessions: first-join in configuration (protocols 764..776, hold inside Dial or before login success, 0-60 early messages, 0-40 messages racing the release, 0-5 later ones, play messages after the join) followed by a switch to a second backend with 1-23 configuration messages; cap cases (1023/1024/1025/1100 messages, bodies just below / exactly / 1 byte above 4 MiB, 5 MiB); pre-join play messages of < 1.20.2 clients; distinct = (scenario, protocol, hold stage, counts, release point). layer 2 (unit, hook-built handlers): one case = one history on the real session handlers: flush raced against enqueues (config queue), caps, the pre-join queue through the legacy-Forge client phase machine, and the hand-over of a non-empty pre-join queue at the JoinGame of a new backend")
 	r.Assume("fake peers frame with the harness's own codec; each message body carries a unique id; 'early' is decided by the harness's logical clock (send returned before the gate was released); connections are FIFO so a marker sent last bounds what can still arrive")
 	rng := r.Rng("sessions")
 	t0 := time.Now()
